@@ -73,6 +73,9 @@ type PropDef struct {
 	Finish func(c *Chain, g *Gen, mons []Monitor)
 	// DeathIsViolation: a failing block is a violation of this property (C02); otherwise it ends the case quietly.
 	DeathIsViolation bool
+	// DeathModules: a block failing in an automatic phase of one of these modules is a violation of this property too
+	// (the property's lifecycle step did not happen); other deaths end the case and are only counted.
+	DeathModules []string
 }
 
 var Props = map[string]*PropDef{}
@@ -187,10 +190,11 @@ func RunCase(spec CaseSpec) (res CaseResult) {
 			if c.Flags["valset-empty"] {
 				res.Death = "out-of-model:validator-set-empty:" + sig
 				st.Count("out-of-model.validator-set-empty")
-			} else if def.DeathIsViolation {
-				c.Violations = append(c.Violations, Violation{Property: spec.Prop, Monitor: "blockfail", Sig: sig, Height: br.Height, Phase: br.Phase,
+			} else if def.DeathIsViolation || deathIn(br.Phase, def.DeathModules) {
+				c.Violations = append(c.Violations, Violation{Property: strings.TrimSuffix(strings.TrimSuffix(spec.Prop, "chain"), "lab"), Monitor: "blockfail", Sig: sig, Height: br.Height, Phase: br.Phase,
 					Detail: map[string]interface{}{"err": firstLines(br.Err.Error(), 3), "panic": firstLines(br.Panic, 40)}})
 			}
+			st.Count("case-died")
 			break
 		}
 		res.BlocksRun++
@@ -222,6 +226,15 @@ func RunCase(spec CaseSpec) (res CaseResult) {
 		def.Finish(c, g, mons)
 	}
 	return
+}
+
+func deathIn(phase string, modules []string) bool {
+	for _, m := range modules {
+		if strings.HasSuffix(phase, "/"+m) {
+			return true
+		}
+	}
+	return false
 }
 
 func minInt(a, b int) int {
